@@ -351,14 +351,20 @@ func (f Finding) Matches(desc map[string]string, what string) bool {
 	return true
 }
 
-// LoadFindings reads known_findings.jsonl (never written at run time).
+// LoadFindings reads known_findings.jsonl and known_findings.d/*.jsonl (never written at run time).
 func LoadFindings(prop string) []Finding {
-	b, err := os.ReadFile(filepath.Join(Root, "known_findings.jsonl"))
-	if err != nil {
-		return nil
+	files := []string{filepath.Join(Root, "known_findings.jsonl")}
+	more, _ := filepath.Glob(filepath.Join(Root, "known_findings.d", "*.jsonl"))
+	sort.Strings(more)
+	files = append(files, more...)
+	var all []string
+	for _, f := range files {
+		if b, err := os.ReadFile(f); err == nil {
+			all = append(all, strings.Split(string(b), "\n")...)
+		}
 	}
 	var out []Finding
-	for _, l := range strings.Split(string(b), "\n") {
+	for _, l := range all {
 		l = strings.TrimSpace(l)
 		if l == "" || strings.HasPrefix(l, "#") {
 			continue
